@@ -252,4 +252,27 @@ def tailOK (tail : List Char) : Bool :=
   | [] => true
   | c :: body => c == '#' && (skipC .com body).isEmpty
 
+/-! ## token classes: the spellings of the interface keyword (audit finding 10(a))
+
+The grammar's `input` / `output` rules are `("INPUT" | "input")` and `("OUTPUT" | "output")`: four case-SENSITIVE string literals
+(no `i` flag), all four reduced to the same `interface` callback.  The spelling class of the statement-leading keyword token is
+therefore exactly `isKw`: `INPUT`, `input`, `OUTPUT`, `output` — `Input`, `OutPut` are plain NAMEs (an assignment target). -/
+
+/-- one statement with its interface keyword spelled `kw` (canonical layout, gap `e` behind it) -/
+def stmtTGK (kw : List Char) (e : List Char) : BStmt → List (Tok × List Char)
+  | .intf ns => (.name kw, []) :: paramsTG ns e
+  | .gate n k d => stmtTG e (.gate n k d)
+
+/-- the token stream of a statement list in which every interface statement carries its own keyword spelling -/
+def benchToksK (ks : List (List Char × BStmt)) : List Tok := ks.flatMap fun p => (stmtTGK p.1 [] p.2).map (·.1)
+
+/-- the spelling chosen for an interface statement is one of the four keyword literals (an assignment has no keyword: its entry
+is ignored) -/
+def kwOK (p : List Char × BStmt) : Bool :=
+  match p.2 with
+  | .intf _ => isKw p.1
+  | .gate _ _ _ => true
+
+def kwsOK (ks : List (List Char × BStmt)) : Bool := ks.all kwOK
+
 end KV.BenchText
